@@ -16,8 +16,24 @@ pub mod heapless {
     #[verifier::external_body]
     #[verifier::reject_recursive_types(T)]
     pub struct Vec<T, const N: usize> { v: std::vec::Vec<T> }
+    /// the elements retain() keeps, given the answers of its predicate
+    pub open spec fn pick<T>(s: Seq<T>, d: Seq<bool>) -> Seq<T>
+        decreases s.len(),
+    {
+        if s.len() == 0 || d.len() != s.len() { Seq::empty() }
+        else if d.last() { pick(s.drop_last(), d.drop_last()).push(s.last()) }
+        else { pick(s.drop_last(), d.drop_last()) }
+    }
     impl<T, const N: usize> Vec<T, N> {
         pub uninterp spec fn view(&self) -> Seq<T>;
+        /// retain: the predicate is asked once per element, front to back
+        #[verifier::external_body]
+        pub fn retain<F: FnMut(&T) -> bool>(&mut self, f: F)
+            requires forall|x: &T| f.requires((x,)),
+            ensures exists|d: Seq<bool>| #![trigger d.len()] d.len() == old(self).view().len()
+                && (forall|i: int| #![trigger d[i]] 0 <= i < d.len() ==> f.ensures((&old(self).view()[i],), d[i]))
+                && final(self).view() == pick(old(self).view(), d),
+        { unimplemented!() }
         /// push: Err(x) and no change when full
         #[verifier::external_body]
         pub fn push(&mut self, x: T) -> (r: Result<(), T>)
@@ -269,3 +285,92 @@ fn do_action_default_layer(&mut self, coord: KCoord, is_oneshot: bool, value: &u
         final(self).default_layer == (if *value < old(self).layers@.len() { *value } else { old(self).default_layer }),
         final(self).states@ == old(self).states@,
         final(self).oneshot.verif_presses@ == told_other(old(self).oneshot.verif_presses@, is_oneshot, coord),
+
+// ---------------------------------------------------------------------------------------
+// An output chord (e.g. S-1): the head of the MultipleKeyCodes arm of do_action (a FRAGMENT, until
+// the repeat-buffer tail).  Every listed key is recorded as a key state AT THE PRESSED COORDINATE, in
+// the listed order; outside a one-shot they carry the clear-on-next-action flag, so that the next
+// action lifts the chord's modifiers (C04 mechanism "output chords flagged clear-on-next-action").
+// ---------------------------------------------------------------------------------------
+//@ item keyberon/src/layout.rs const NORMAL_KEY_FLAG_CLEAR_ON_NEXT_ACTION
+//@@ keep-vis
+//@ raw
+/// R34: `for &keycode in *v` (a reference pattern) -> iteration over a copy of the slice (ASSUMED: same
+/// elements, same order)
+#[verifier::external_body]
+fn verif_copied<T: Copy>(v: &[T]) -> (r: std::vec::Vec<T>)
+    ensures r@ == v@,
+{ unimplemented!() }
+spec fn chord_states<'a, T>(st: Seq<State<'a, T>>, ks: Seq<KeyCode>, n: int, coord: KCoord, flags: u8) -> Seq<State<'a, T>>
+    decreases n,
+{
+    if n <= 0 { st } else { pushed(chord_states(st, ks, n - 1, coord, flags), State::NormalKey { keycode: ks[n - 1], coord, flags: NormalKeyFlags(flags) }) }
+}
+
+//@ fragment keyberon/src/layout.rs fn do_action in `Layout<'a, C, R, T>` block-after `&MultipleKeyCodes(v) => {` until `if oneshot_coords.is_empty() {` as do_action_multiple_key_codes_head
+//@@ wrap impl<'a, const C: usize, const R: usize, T: 'a + Copy> Layout<'a, C, R, T>
+//@@ header
+fn do_action_multiple_key_codes_head(&mut self, coord: KCoord, is_oneshot: bool, v: &'a &'a [KeyCode])
+//@@ resub R34 1 /for &keycode in \*v/ => `for keycode in itk: verif_copied(*v)`
+//@@ spec
+    ensures
+        final(self).states@ == chord_states(old(self).states@, v@, v@.len() as int, coord, if is_oneshot { 0u8 } else { NORMAL_KEY_FLAG_CLEAR_ON_NEXT_ACTION }),
+        final(self).historical_keys.verif_pushed@ == old(self).historical_keys.verif_pushed@ + v@,
+        final(self).oneshot.verif_presses@ == told_other(old(self).oneshot.verif_presses@, is_oneshot, coord),
+        final(self).default_layer == old(self).default_layer,
+//@@ loop 1
+    invariant
+        itk.seq() == v@, 0 <= itk.index@ <= v@.len(),
+        self.states@ == chord_states(old(self).states@, v@, itk.index@ as int, coord, if is_oneshot { 0u8 } else { NORMAL_KEY_FLAG_CLEAR_ON_NEXT_ACTION }),
+        self.historical_keys.verif_pushed@ == old(self).historical_keys.verif_pushed@ + v@.subrange(0, itk.index@ as int),
+        self.oneshot == old(self).oneshot, self.default_layer == old(self).default_layer,
+//@@ after-re 1 /self\.historical_keys\.push_front\(keycode\);/
+    proof {
+        let i = itk.index@ as int;
+        assert(v@.subrange(0, i + 1) =~= v@.subrange(0, i).push(keycode));
+        assert(old(self).historical_keys.verif_pushed@ + v@.subrange(0, i + 1) =~= (old(self).historical_keys.verif_pushed@ + v@.subrange(0, i)).push(keycode));
+    }
+//@@ before 1 `let mut oneshot_coords = ArrayDeque::new();`
+    proof { assert(v@.subrange(0, v@.len() as int) =~= v@); }
+
+// ---------------------------------------------------------------------------------------
+// .. and the lifting of such a chord: the first statement of do_action proper (a FRAGMENT, stmt-at):
+// every key state flagged clear-on-next-action is dropped before the next action is performed;
+// nothing else is.
+// ---------------------------------------------------------------------------------------
+//@ item keyberon/src/layout.rs fn nkf_clear_on_next_action in `NormalKeyFlags`
+//@@ wrap impl NormalKeyFlags
+//@@ pre
+    pub open spec fn nkf_spec(self) -> bool { self.0 & NORMAL_KEY_FLAG_CLEAR_ON_NEXT_ACTION == NORMAL_KEY_FLAG_CLEAR_ON_NEXT_ACTION }
+//@@ attr #[verifier::when_used_as_spec(nkf_spec)]
+//@@ ret r
+//@@ spec
+    ensures r == self.nkf_spec(),
+//@ raw
+spec fn lifted<'a, T>(s: State<'a, T>) -> bool { s matches State::NormalKey { flags, .. } && flags.nkf_spec() }
+proof fn lemma_pick_lifted<'a, T>(st: Seq<State<'a, T>>, d: Seq<bool>)
+    requires d.len() == st.len(), forall|i: int| 0 <= i < st.len() ==> d[i] == !lifted(#[trigger] st[i]),
+    ensures heapless::pick(st, d) == st.filter(|s: State<'a, T>| !lifted(s)),
+    decreases st.len(),
+{
+    reveal(Seq::filter);
+    if st.len() > 0 { lemma_pick_lifted(st.drop_last(), d.drop_last()); }
+}
+
+//@ fragment keyberon/src/layout.rs fn do_action in `Layout<'a, C, R, T>` stmt-at `self.states.retain(|s| match s {` as do_action_lift_chords
+//@@ wrap impl<'a, const C: usize, const R: usize, T: 'a + Copy> Layout<'a, C, R, T>
+//@@ header
+fn do_action_lift_chords(&mut self)
+//@@ resub R12 1 /self\.states\.retain\(\|s\| (match s \{.*?\n\s*\})\);/ => `self.states.retain(|s: &State<'a, T>| -> (b: bool) ensures b == (\1) { \1 });`
+//@@ spec
+    ensures
+        final(self).states@ == old(self).states@.filter(|s: State<'a, T>| !lifted(s)),
+        final(self).default_layer == old(self).default_layer, final(self).oneshot == old(self).oneshot,
+//@@ after-re 1 /self\.states\.retain\([^;]*\);/
+    proof {
+        let st0 = old(self).states@;
+        let d = choose|d: Seq<bool>| #![trigger d.len()] d.len() == st0.len()
+            && (forall|j: int| #![trigger d[j]] 0 <= j < d.len() ==> d[j] == !lifted(st0[j]))
+            && self.states@ == heapless::pick(st0, d);
+        lemma_pick_lifted(st0, d);
+    }
